@@ -329,18 +329,29 @@ func (c *Client) Backup(ctx context.Context, br *command.BackupRequest, nodeAddr
 
 	// The backup stream is unconditionally compressed, so depending on whether
 	// the user requested compression, we may need to decompress the response.
-	var rc io.ReadCloser
-	rc = conn
-	if !br.Compress {
-		gzr, err := gzip.NewReader(conn)
+	// In both cases the gzip framing tells us where the stream ends, and
+	// whether it arrived completely.
+	if br.Compress {
+		// The user wants the compressed bytes, so pass them through unchanged,
+		// decompressing only to follow the stream to its end. The remote node
+		// keeps the connection open after the stream, so reading until EOF
+		// would block, and a connection cut mid-stream would look like success.
+		gzr, err := gzip.NewReader(io.TeeReader(conn, w))
 		if err != nil {
 			return err
 		}
 		gzr.Multistream(false)
-		rc = gzr
-		defer rc.Close()
+		defer gzr.Close()
+		_, err = io.Copy(io.Discard, gzr)
+		return err
 	}
-	_, err = io.Copy(w, rc)
+	gzr, err := gzip.NewReader(conn)
+	if err != nil {
+		return err
+	}
+	gzr.Multistream(false)
+	defer gzr.Close()
+	_, err = io.Copy(w, gzr)
 	return err
 }
 
